@@ -4,7 +4,8 @@
    of the proof files and followed by Print Assumptions. *)
 From Coq Require Import Permutation.
 From GVL Require Import NList.
-From GV Require Import Proofs.
+From GVG Require Import Kern.
+From GV Require Import Proofs Bridge.
 Open Scope N_scope.
 
 (* ================= round trips: Unmarshal (Marshal v) = v for every well-formed v, in every iteration order ===== *)
@@ -152,6 +153,46 @@ Proof.
          (conj (range_total o s) (conj (authenticate_total o s) (conj (authorization_total o s) (keymgmt_total o s)))))))).
 Qed.
 Print Assumptions C09_headers_unmarshal_total.
+
+(* ================= BRIDGE (tools/go2coq) =================
+   Integer kernels of pkg/headers TRANSLATED from the Go source on this run are the formulas of the models ([zn] =
+   Z.of_N, [u64N x] = x < 2^64): the SMPTE duration time.Duration(seconds+mins*60+hours*3600) * time.Second (uint64
+   wrap-around, then int64 multiplication) is the expression of smpte_unmarshal; smpte_marshal IS RangeSMPTETime.marshal
+   written with the translated d/3600, d%3600, d/60, d%60 and frame tests; the integer summand mins*60+hours*3600 of
+   unmarshalRangeNPTTime is npt_unmarshal's; the part-count tests; parse_ssrc IS the ssrc case of Transport.Unmarshal
+   written with the translated odd-length test and len(tmp) <= 4; the 32-bit big-endian SSRC value; the second port
+   port1+1 of a single-port value (parse_ports).  The MIKEY kernels are bridged in coq/mikey (Props_C09.v there). *)
+Theorem C09_headers_kernels_are_the_code :
+  (forall secs mins hours, u64N secs -> u64N mins -> u64N hours ->
+     k_hd_smpte_total (zn secs) (zn mins) (zn hours) (zn E9) =
+     wrap64 (s64z (zn ((secs + mins * 60 + hours * 3600) mod P64)) * zn E9)) /\
+  (forall t, u64N (smpte_secs t) -> smpte_marshal t = smpte_marshal_k t) /\
+  (forall mins hours, u64N mins -> u64N hours ->
+     k_hd_npt_hm (zn mins) (zn hours) = zn ((mins * 60 + hours * 3600) mod P64)) /\
+  (forall n, k_hd_smpte_parts_bad (zn n) = negb ((n =? 3) || (n =? 4)) /\ k_hd_npt_parts_bad (zn n) = (3 <? n)) /\
+  (forall v, nlen v < 4611686018427387904 ->
+     parse_ssrc v =
+     let v1 := trim_left_sp v in
+     let v2 := if k_hd_ssrc_odd (zn (nlen v1)) then 48 :: v1 else v1 in
+     match hex_decode v2 with
+     | Some bs => if k_hd_ssrc_fits 0 0 (zn (nlen bs)) then Some (be_val bs) else None
+     | None => None
+     end) /\
+  (forall a b c d, a < 256 -> b < 256 -> c < 256 -> d < 256 ->
+     k_hd_ssrc_value (zn a) (zn b) (zn c) (zn d) = zn (be_val [a; b; c; d])) /\
+  (forall p, u64N (p + 1) -> k_hd_port_second (zn p) = zn (p + 1)).
+Proof. exact headers_kernels_are_the_code. Qed.
+Print Assumptions C09_headers_kernels_are_the_code.
+
+(* the translated kernels compute: 1:02:03 is 3723 s; 3723 s prints as 1:02:03; an odd number of hex digits gets a
+   leading zero; 5 bytes do not fit an SSRC; ssrc DEADBEEF; port 5000 stands for 5000-5001 *)
+Example C09_headers_example_kernels :
+  k_hd_smpte_total 3 2 1 1000000000 = 3723000000000%Z /\
+  k_hd_smpte_hours 3723 = 1%Z /\ k_hd_smpte_mins (k_hd_smpte_rem 3723) = 2%Z /\ k_hd_smpte_secs (k_hd_smpte_rem 3723) = 3%Z /\
+  k_hd_npt_hm 2 1 = 3720%Z /\ k_hd_smpte_parts_bad 3 = false /\ k_hd_smpte_parts_bad 5 = true /\ k_hd_npt_parts_bad 4 = true /\
+  k_hd_ssrc_odd 7 = true /\ k_hd_ssrc_odd 8 = false /\ k_hd_ssrc_fits 0 0 4 = true /\ k_hd_ssrc_fits 0 0 5 = false /\
+  k_hd_ssrc_value 222 173 190 239 = 3735928559%Z /\ k_hd_port_second 5000 = 5001%Z.
+Proof. vm_compute. repeat split. Qed.
 
 (* ================= non-vacuity ================= *)
 (* a Transport value with every optional field present satisfies wf_transport and round-trips in reversed order *)
